@@ -9,8 +9,8 @@ NOTE_SAN = ("Trusted base: g++ 12 / clang 14 sanitizer runtimes, libstdc++ refer
 
 CHECKS = {
     "C01": ("exploration", "5 C01", "differential runtime monitoring: random and coverage-guided (libFuzzer) operation histories vs std::vector model under ASan/UBSan",
-            "Every public call of generated operation histories (31 configurations quick, 63 thorough: flavour x N x element category incl. raw int/double and "
-            "throwing-move elements x size_type x allocator x iterator category x C++17/20) is compared step by step with std::vector; a coverage-guided stage (libFuzzer "
+            "Every public call of generated operation histories (34 configurations quick, 74 thorough: flavour x N x element category incl. raw int/double, over-aligned and "
+            "throwing-move elements x size_type x allocator x range source (7 kinds incl. single-pass, non-contiguous random access and values of another type) x C++14/17/20) is compared step by step with std::vector; a coverage-guided stage (libFuzzer "
             "mutating the byte string every generator decision is read from; 4 configurations x 25k inputs quick, 16 x 150k thorough) drives the same engine and monitors; "
             "exploration is the right level because the property quantifies over unbounded histories."),
     "C02": ("exploration", "5 C02", "runtime monitoring: element identity/lifetime ledger + ASan/UBSan/LSan over random and coverage-guided (libFuzzer) histories",
@@ -45,10 +45,10 @@ CHECKS = {
             "Every fill near the limit x every growing operation x positions x counts (incl. size_type extremes and range lengths beyond the size_type maximum) for small N and 8-bit size types; the expected "
             "verdict is computed independently in uintmax_t; exhaustive inside that grid."),
     "C09": ("fault_enumeration", "5 C09", "fault injection: every index of the throwing-capable events (element construction/copy/assignment, allocator calls) of every scenario, judged by ledgers and snapshots",
-            "Each scenario is first run fault-free to count its fault points, then re-run once per fault index; vectors (27 operation forms) and sets (13 forms); plus real "
+            "Each scenario is first run fault-free to count its fault points, then re-run once per fault index; vectors (27 operation forms x 5 capacity states, C++14/17/20) and sets (13 forms); plus real "
             "malloc/realloc failures of amc::allocator for impossible capacities."),
     "C10": ("exploration", "5 C10", "differential runtime monitoring: complete small-scope grid of aliased calls vs std::vector fed with a pre-copied value, plus aliased calls in random and coverage-guided histories",
-            "size x position x source index x count x spare-capacity mode x 9 call forms per configuration; exhaustive in that scope."),
+            "size x position x source index x count x spare-capacity mode x 11 call forms (incl. emplace from references to members of an element) per configuration, C++14/17/20; exhaustive in that scope."),
     "C13": ("exploration", "5 C13", "runtime monitoring: state-pair grid of swap2 over configuration pairs with model/ledger/canary oracles, plus swap2-heavy random and coverage-guided histories, under ASan/UBSan",
             "Every ordered pair of operand states (inline, heap exact, heap with room, heap cleared, adopted small buffer) x sizes for 12 (thorough 33) type pairs, "
             "both call directions, with follow-up scripts; impossible exchanges must throw and change nothing."),
